@@ -87,7 +87,12 @@ func c08Setup(c c08Cfg) *c08World {
 	var peers, agedPeers []string
 	for i, vi := range c.pop {
 		v := c08Vars[vi]
-		id := ids[1+i]
+		var id *vh.Ident
+		if 1+i < len(ids) {
+			id = ids[1+i]
+		} else {
+			id = vh.ExtraIdentity(i)
+		}
 		w.nodes = append(w.nodes, id)
 		h := pw.Host(id.Name)
 		if i < len(c.modes) {
@@ -599,6 +604,59 @@ func c08RPCHosts(driver string) vh.Unit {
 	}}
 }
 
+// a big pool: dozens of nodes of every variant, answering in every way; the reply still holds only
+// eligible hosts that acknowledged, never more than asked for or allowed
+func c08Wide(driver string, n int) vh.Unit {
+	name := fmt.Sprintf("wide-population/%s/x%d", driver, n)
+	return vh.Unit{Name: name, Run: func(u *vh.U) {
+		for _, k := range []int{1, 5, 25, 1000} {
+			for _, max := range []int{0, 3, 40} {
+				for _, kind := range []string{"", "geth"} {
+					for _, legacy := range []bool{false, true} {
+						for rot := 0; rot < 3; rot++ {
+							if u.Expired() {
+								return
+							}
+							pop := make([]int, n)
+							modes := make([]int, n)
+							for i := range pop {
+								pop[i] = (i + rot) % len(c08Vars)
+								modes[i] = (i/len(c08Vars) + rot) % 3
+							}
+							c := c08Cfg{pop: pop, kind: kind, k: k, max: max, modes: modes, legacy: legacy, driver: driver}
+							var w *c08World
+							var r c08Result
+							s := vsched.Run(vsched.Options{MaxTime: time.Hour, Drain: true, MaxSteps: 2000000}, func() {
+								w = c08Setup(c)
+								r = c08Call(w, c)
+							})
+							u.R.Evaluations++
+							u.R.States++
+							u.R.Transitions += int64(len(s.Trace))
+							u.R.Traces++
+							u.Observe(fmt.Sprintf("wide %d k=%d max=%d -> %d err=%v", n, k, max, len(r.hosts), r.err != nil))
+							desc := fmt.Sprintf("population of %d nodes (all variants, every third acknowledging / failing / silent), request for %d of kind %q, maximum %d, legacy=%v", n, k, kind, max, legacy)
+							switch {
+							case s.Panic != nil:
+								u.Violate("peers/panic", fmt.Sprintf("%s: %v", desc, s.Panic), nil)
+							case s.Deadlock || s.Horizon:
+								u.Violate("peers/deadlock", fmt.Sprintf("%s: request never returned", desc), nil)
+							case len(s.Blocked) > 0:
+								u.Violate("peers/goroutine-left-blocked", fmt.Sprintf("%s: %v", desc, s.Blocked[:1]), nil)
+							default:
+								if cls, txt := c08Judge(c, w, r); cls != "" && cls != "fewer-than-available" {
+									u.Violate("peers/"+cls, fmt.Sprintf("%s: %s (%d hosts returned, err=%v)", desc, txt, len(r.hosts), r.err), nil)
+								}
+							}
+						}
+					}
+				}
+			}
+		}
+		u.Sample(fmt.Sprintf("%d nodes, requests for 1/5/25/1000 hosts with maxima 0/3/40", n))
+	}}
+}
+
 func init() {
 	vh.Register(&vh.Check{
 		ID: "C08", Level: "model_checking",
@@ -630,7 +688,10 @@ func init() {
 			}
 			us = append(us, c08Orders(vh.Memory, []int{A, A}, 5, bound+1), c08Orders(vh.Memory, []int{A, S}, 5, bound+1))
 			us = append(us, c08Orders(vh.Badger, []int{A, S, A}, 2, bound))
-			us = append(us, c08RPCHosts(vh.Memory))
+			us = append(us, c08RPCHosts(vh.Memory), c08Wide(vh.Memory, 24), c08Wide(vh.Badger, 24))
+			if tier == "thorough" {
+				us = append(us, c08Wide(vh.Memory, 96))
+			}
 			return us
 		},
 	})
